@@ -3,7 +3,7 @@ nothing.
 
 Bounded-exhaustive grid of (payload length, MTU) pairs across the CBOR
 length-head boundaries x CRC types x extension-block sets (with and without
-the replicate flag) x origin (locally created / received and forwarded) x
+the replicate flag) x origin (locally created / received and forwarded / received from a clockless source with lifetime 0) x
 flags (plain, do-not-fragment, already a fragment) x integrity policy on/off.
 Every octet string the real agent hands to the convergence layer for one send
 request is decoded by the independent decoder and judged against a tiling
@@ -39,6 +39,10 @@ def make_bundle(length, crc, ext, flags, origin):
                ts=(700000000000, 4), lifetime=3600000)
     if flags & B.FLAG_IS_FRAGMENT:
         pri.update(frag_offset=5, total_adu=length + 100)
+    if origin == 'forward-ts0':
+        # source without a clock (the bundle then carries an age block) and lifetime zero:
+        # the values for which a locally created bundle would get defaults
+        pri.update(ts=(0, 4), lifetime=0)
     blocks = []
     for (i, blk) in enumerate(EXT_SETS[ext]):
         blk = dict(blk, num=i + 2, crc_type=crc if blk['type'] != 7 else 0)
@@ -235,6 +239,7 @@ def variants(tier):
         out.append((2, ext, 'local', 'plain', False, sparse))
     out.append((1, 'hop+repl', 'forward', 'plain', False, sparse))
     out.append((0, 'none', 'forward', 'plain', False, sparse))
+    out.append((1, 'unk+age', 'forward-ts0', 'plain', False, sparse))
     for flagname in ('dnf', 'isfrag'):
         out.append((1, 'hop', 'local', flagname, False, thin))
         out.append((1, 'hop', 'forward', flagname, False, thin))
